@@ -2,7 +2,7 @@
   Lemmas about the expression parser model (TwigModel/ParseExpr.lean) and the expression lexer
   (TwigModel/Scan.lean `lexExpr`), used by TwigProofs/C08.lean.  Everything lives in `Twig.PE`.
 
-  1. fuel order `FLe`, one-step monotonicity of all fourteen mutually recursive parser functions (`monoAt`),
+  1. fuel order `FLe`, one-step monotonicity of all fifteen mutually recursive parser functions (`monoAt`),
      `parse*_mono`: more fuel never changes a non-fuel result;
   2. tokens of the operator fragment (`opToks`, `unTok`, `lp`, `rp`), contexts (`Hd`, `NoSuffix`, `Stop`);
   3. `AtomOk` / `SimpleOk` (spelling of an operand), `Spells` (every admissible parenthesisation of prefix / binary
@@ -59,6 +59,7 @@ structure MonoAt (f : Nat) : Prop where
   argsLoop : ∀ close msg ts, FLe (parseArgsLoop f close msg ts) (parseArgsLoop (f+1) close msg ts)
   operand : ∀ ts, FLe (parseOperand f ts) (parseOperand (f+1) ts)
   suffix : ∀ e ts, FLe (parseSuffix f e ts) (parseSuffix (f+1) e ts)
+  subs : ∀ e ts, FLe (parseSubs f e ts) (parseSubs (f+1) e ts)
   filters : ∀ e ts, FLe (parseFilters f e ts) (parseFilters (f+1) e ts)
   simple : ∀ ts, FLe (parseSimple f ts) (parseSimple (f+1) ts)
   attrs : ∀ e ts, FLe (parseAttrs f e ts) (parseAttrs (f+1) e ts)
@@ -67,7 +68,7 @@ structure MonoAt (f : Nat) : Prop where
 
 theorem monoAt_zero : MonoAt 0 := by
   constructor <;> intros <;> exact .inl (by simp [parseExpression, parseConditional, parseBinaryPrec,
-    parseLoop, parseTest, parseArgs, parseArgsLoop, parseOperand, parseSuffix, parseFilters, parseSimple,
+    parseLoop, parseTest, parseArgs, parseArgsLoop, parseOperand, parseSuffix, parseSubs, parseFilters, parseSimple,
     parseAttrs, parseMap, parseMapLoop])
 
 /-- structural step of the monotonicity proofs: both sides have the same shape, the leaves are
@@ -77,7 +78,7 @@ macro "fle" ih:ident : tactic => `(tactic| repeat' first
   | exact MonoAt.expr $ih _ | exact MonoAt.cond $ih _ _ | exact MonoAt.bin $ih _ _
   | exact MonoAt.loop $ih _ _ _ | exact MonoAt.test $ih _ _ _ _ | exact MonoAt.args $ih _ _ _
   | exact MonoAt.argsLoop $ih _ _ _ | exact MonoAt.operand $ih _ | exact MonoAt.suffix $ih _ _
-  | exact MonoAt.filters $ih _ _ | exact MonoAt.simple $ih _ | exact MonoAt.attrs $ih _ _
+  | exact MonoAt.subs $ih _ _ | exact MonoAt.filters $ih _ _ | exact MonoAt.simple $ih _ | exact MonoAt.attrs $ih _ _
   | exact MonoAt.map $ih _ | exact MonoAt.mapLoop $ih _
   | refine FLe.bind ?_ (fun ⟨_, _⟩ => ?_)
   | refine FLe.ite (fun _ => ?_) (fun _ => ?_)
@@ -94,6 +95,7 @@ theorem monoAt_succ (f : Nat) (ih : MonoAt f) : MonoAt (f+1) where
   argsLoop close msg ts := by unfold parseArgsLoop; fle ih
   operand ts := by unfold parseOperand; fle ih
   suffix e ts := by unfold parseSuffix; fle ih
+  subs e ts := by unfold parseSubs; fle ih
   filters e ts := by unfold parseFilters; fle ih
   simple ts := by unfold parseSimple; fle ih
   attrs e ts := by unfold parseAttrs; fle ih
@@ -134,6 +136,8 @@ theorem parseOperand_mono {f f' ts r} (h : parseOperand f ts = r) (hne : r ≠ .
     parseOperand f' ts = r := fuel_mono (parseOperand · ts) (fun f => (monoAt f).operand ts) h hne hle
 theorem parseSuffix_mono {f f' e ts r} (h : parseSuffix f e ts = r) (hne : r ≠ .error .fuel) (hle : f ≤ f') :
     parseSuffix f' e ts = r := fuel_mono (parseSuffix · e ts) (fun f => (monoAt f).suffix e ts) h hne hle
+theorem parseSubs_mono {f f' e ts r} (h : parseSubs f e ts = r) (hne : r ≠ .error .fuel) (hle : f ≤ f') :
+    parseSubs f' e ts = r := fuel_mono (parseSubs · e ts) (fun f => (monoAt f).subs e ts) h hne hle
 theorem parseFilters_mono {f f' e ts r} (h : parseFilters f e ts = r) (hne : r ≠ .error .fuel) (hle : f ≤ f') :
     parseFilters f' e ts = r := fuel_mono (parseFilters · e ts) (fun f => (monoAt f).filters e ts) h hne hle
 theorem parseSimple_mono {f f' ts r} (h : parseSimple f ts = r) (hne : r ≠ .error .fuel) (hle : f ≤ f') :
@@ -268,6 +272,14 @@ theorem parseSuffix_none {rest : List Token} (h : NoSuffix rest = true) (f : Nat
   | nil => rfl
   | cons t r => simp_all [NoSuffix, pure, Except.pure]
 
+/-- no `[` follows: the subscript loop behind the operand of a prefix operator stops at once -/
+theorem parseSubs_none {rest : List Token} (h : NoSuffix rest = true) (f : Nat) (e : Expr) :
+    parseSubs (f+1) e rest = .ok (e, rest) := by
+  rw [parseSubs.eq_def]
+  cases rest with
+  | nil => rfl
+  | cons t r => simp_all [NoSuffix, pure, Except.pure]
+
 /-- `ta` is a spelling of the operand `a` (operand level): `parseOperand` reads it back in every context that
     does not extend an operand, with fuel `4·|ta| - 1` -/
 def AtomOk (a : Expr) (ta : List Token) : Prop :=
@@ -356,9 +368,10 @@ theorem parseSimple_paren {e : Expr} {ts rest : List Token} {k : Nat}
   rw [h1]
   simp [bind, Except.bind, rp, tk, pure, Except.pure]
 
-/-- a prefix operator applies to what `parseSimpleExpression` reads next -/
+/-- a prefix operator applies to what `parseSimpleExpression` reads next, with the `[index]` suffixes behind it -/
 theorem parseSimple_unary (u : UnOp) (f : Nat) (ts : List Token) :
-    parseSimple (f+1) (unTok u :: ts) = (parseSimple f ts >>= fun x => pure (.unary u x.1, x.2)) := by
+    parseSimple (f+1) (unTok u :: ts) =
+      (parseSimple f ts >>= fun x => parseSubs f x.1 x.2 >>= fun y => pure (.unary u y.1, y.2)) := by
   rw [parseSimple.eq_def]
   cases u <;> simp [unTok, tk, isName, NAME, OPERATOR] <;> rfl
 
@@ -400,8 +413,10 @@ theorem parse_spells {p : Nat} {e : Expr} {ts : List Token} (h : Spells p e ts) 
         parseSimple f ((unTok u :: ta) ++ rest) = .ok (.unary u a, rest) := by
       intro rest hns f hf
       simp only [List.length_cons] at hf
-      obtain ⟨g, rfl⟩ : ∃ g, f = g + 1 := ⟨f - 1, by omega⟩
-      rw [List.cons_append, parseSimple_unary, ih.2 rfl rest hns g (by omega)]
+      obtain ⟨g, rfl⟩ : ∃ g, f = g + 2 := ⟨f - 2, by omega⟩
+      rw [List.cons_append, parseSimple_unary, ih.2 rfl rest hns (g+1) (by omega)]
+      simp only [bind, Except.bind]
+      rw [parseSubs_none hns]
       rfl
     exact ⟨fun m rest f r _ _ hns hl hr => loop_of_simple (by simp) hS m rest f r hns hl hr, fun _ => hS⟩
   | @bin p o l r' tl tr hpo hl hr ihl ihr =>
@@ -1425,6 +1440,7 @@ structure AdqAt (f : Nat) : Prop where
   argsLoop : ∀ close msg ts, 8 * ts.length + 5 ≤ f → Adq ts.length 2 (parseArgsLoop f close msg ts)
   operand : ∀ ts, 8 * ts.length + 2 ≤ f → Adq ts.length 1 (parseOperand f ts)
   suffix : ∀ e ts, 8 * ts.length + 2 ≤ f → Adq ts.length 0 (parseSuffix f e ts)
+  subs : ∀ e ts, 8 * ts.length + 1 ≤ f → Adq ts.length 0 (parseSubs f e ts)
   filters : ∀ e ts, 8 * ts.length + 1 ≤ f → Adq ts.length 0 (parseFilters f e ts)
   filtersBar : ∀ e t r, isP t 124 = true → 8 * (t :: r).length + 1 ≤ f → Adq (t :: r).length 2 (parseFilters f e (t :: r))
   simple : ∀ ts, 8 * ts.length + 1 ≤ f → Adq ts.length 1 (parseSimple f ts)
@@ -1588,6 +1604,23 @@ theorem adqAt_succ (f : Nat) (ih : AdqAt f) : AdqAt (f+1) where
           refine Adq.bind (ih.filtersBar e t r hbar (by omega)) (fun e' r' hr' => ?_)
           exact (ih.suffix e' r' (by simp at hr' hf; omega)).weaken (by intro x hx; omega)
         · exact Adq.pure (Nat.le_refl _)
+  subs e ts hf := by
+    rw [parseSubs.eq_def]
+    cases ts with
+    | nil => exact Adq.pure (Nat.le_refl _)
+    | cons t r =>
+      dsimp only
+      split
+      · refine Adq.bind (ih.expr r (by simp at hf; omega)) (fun i r' hr' => ?_)
+        dsimp only
+        cases r' with
+        | nil => exact Adq.perr _
+        | cons c r'' =>
+          dsimp only
+          split
+          · exact (ih.subs _ r'' (by simp at hr' hf; omega)).weaken (by intro x hx; simp at hr' ⊢; omega)
+          · exact Adq.perr _
+      · exact Adq.pure (Nat.le_refl _)
   filters e ts hf := by
     cases ts with
     | nil => unfold parseFilters; exact Adq.pure (Nat.le_refl _)
@@ -1605,9 +1638,12 @@ theorem adqAt_succ (f : Nat) (ih : AdqAt f) : AdqAt (f+1) where
     | nil => exact Adq.perr _
     | cons t r =>
       dsimp only
-      have hun : ∀ u : UnOp, Adq (t :: r).length 1 (do let (e, r') ← parseSimple f r; Pure.pure (Expr.unary u e, r')) := by
+      have hun : ∀ u : UnOp, Adq (t :: r).length 1 (do
+          let (e, r') ← parseSimple f r; let (e', r'') ← parseSubs f e r'; Pure.pure (Expr.unary u e', r'')) := by
         intro u
         refine Adq.bind (ih.simple r (by simp at hf; omega)) (fun e r' hr' => ?_)
+        try dsimp only
+        refine Adq.bind (ih.subs e r' (by simp at hf; omega)) (fun e' r'' hr'' => ?_)
         try dsimp only
         exact Adq.pure (by simp; omega)
       have hlit : ∀ x : Expr, Adq (t :: r).length 1 (Pure.pure (x, r) : R (Expr × List Token)) :=
@@ -1746,5 +1782,131 @@ theorem exprFuel_adequate (ts : List Token) : 8 * ts.length + 4 ≤ exprFuel ts 
 theorem parseExpression_fuel_irrelevant (ts : List Token) {f : Nat} (hf : exprFuel ts ≤ f) :
     parseExpression f ts = parseExpression (exprFuel ts) ts :=
   parseExpression_mono rfl (parseExpression_adequate ts (exprFuel_adequate ts)).ne_fuel hf
+
+/-! ## A subscript binds tighter than a prefix operator (`parseSubscript` in `parseSimpleExpression`) -/
+
+def lbTok : Token := tk PUNCT [91]
+def rbTok : Token := tk PUNCT [93]
+
+/-- the next token is not `[` -/
+def NoSubscript : List Token → Bool
+  | [] => true
+  | t :: _ => !isP t 91
+
+theorem noSubscript_of_noSuffix {rest : List Token} (h : NoSuffix rest = true) : NoSubscript rest = true := by
+  cases rest with
+  | nil => rfl
+  | cons t r => simp_all [NoSuffix, NoSubscript]
+
+theorem noSubscript_of_stop {rest : List Token} (h : Stop rest = true) : NoSubscript rest = true :=
+  noSubscript_of_noSuffix (stop_noSuffix h)
+
+/-- the subscript loop stops at anything but `[` (a filter bar included) -/
+theorem parseSubs_stop {rest : List Token} (h : NoSubscript rest = true) (f : Nat) (e : Expr) :
+    parseSubs (f+1) e rest = .ok (e, rest) := by
+  rw [parseSubs.eq_def]
+  cases rest with
+  | nil => rfl
+  | cons t r => simp_all [NoSubscript, pure, Except.pure]
+
+/-- one `[index]` is read by the subscript loop, which goes on behind the `]` -/
+theorem parseSubs_one {i : Expr} {ti rest : List Token} {f : Nat} (e : Expr)
+    (hi : parseExpression f (ti ++ rbTok :: rest) = .ok (i, rbTok :: rest)) :
+    parseSubs (f+1) e (lbTok :: (ti ++ rbTok :: rest)) = parseSubs f (.item e i) rest := by
+  have h1 : isP lbTok 91 = true := by decide
+  have h2 : isP rbTok 93 = true := by decide
+  rw [parseSubs]
+  simp only [h1, if_true, hi, bind, Except.bind, h2]
+
+/-- without a subscript behind the operand a prefix operator reads what it read before the repair -/
+theorem parseSimple_unary_plain (u : UnOp) {e : Expr} {to rest : List Token} {fe : Nat}
+    (he : parseSimple fe (to ++ rest) = .ok (e, rest)) (hr : NoSubscript rest = true) :
+    ∀ f, fe + 2 ≤ f → parseSimple f (unTok u :: (to ++ rest)) = .ok (.unary u e, rest) := by
+  intro f hf
+  obtain ⟨g, rfl⟩ : ∃ g, f = g + 2 := ⟨f - 2, by omega⟩
+  rw [parseSimple_unary, parseSimple_mono he ok_ne_fuel (by omega)]
+  simp only [bind, Except.bind]
+  rw [parseSubs_stop hr]
+  rfl
+
+/-- `u operand [ index ]`: the subscript goes onto the operand, the prefix operator onto the subscripted operand -/
+theorem parseSimple_unary_subscript (u : UnOp) {e i : Expr} {to ti rest : List Token} {fe fi : Nat}
+    (he : parseSimple fe (to ++ lbTok :: (ti ++ rbTok :: rest)) = .ok (e, lbTok :: (ti ++ rbTok :: rest)))
+    (hi : parseExpression fi (ti ++ rbTok :: rest) = .ok (i, rbTok :: rest))
+    (hr : NoSubscript rest = true) :
+    ∀ f, fe + fi + 3 ≤ f →
+      parseSimple f (unTok u :: (to ++ lbTok :: (ti ++ rbTok :: rest))) = .ok (.unary u (.item e i), rest) := by
+  intro f hf
+  obtain ⟨g, rfl⟩ : ∃ g, f = g + 3 := ⟨f - 3, by omega⟩
+  rw [parseSimple_unary, parseSimple_mono he ok_ne_fuel (by omega)]
+  simp only [bind, Except.bind]
+  rw [parseSubs_one e (parseExpression_mono hi ok_ne_fuel (show fi ≤ g + 1 by omega)), parseSubs_stop hr]
+  rfl
+
+/-- the tokens of a chain of subscripts `[i1][i2]…` -/
+def subsToks : List (List Token) → List Token
+  | [] => []
+  | ti :: more => lbTok :: (ti ++ rbTok :: subsToks more)
+
+/-- `e[i1][i2]…` -/
+def itemChain (e : Expr) : List Expr → Expr
+  | [] => e
+  | i :: more => itemChain (.item e i) more
+
+/-- `ti` is read as the index expression `i` in front of a closing bracket, whatever follows it -/
+def IndexOk (f : Nat) (i : Expr) (ti : List Token) : Prop :=
+  ∀ tail, parseExpression f (ti ++ rbTok :: tail) = .ok (i, rbTok :: tail)
+
+theorem indexOk_of_spellsX {i : Expr} {ti : List Token} (h : SpellsX i ti) {f : Nat} (hf : 4 * ti.length + 2 ≤ f) :
+    IndexOk f i ti :=
+  fun tail => parseExpression_spellsX h (rbTok :: tail) (by simp [Stop, rbTok, tk, PUNCT, VAR_END, BLOCK_END, EOF]) f hf
+
+theorem parseSubs_chain (f : Nat) : ∀ (idx : List (Expr × List Token)) (e : Expr) (rest : List Token),
+    (∀ p ∈ idx, IndexOk f p.1 p.2) → NoSubscript rest = true →
+    parseSubs (f + idx.length + 1) e (subsToks (idx.map (·.2)) ++ rest) = .ok (itemChain e (idx.map (·.1)), rest)
+  | [], e, rest, _, hr => parseSubs_stop hr _ e
+  | p :: more, e, rest, h, hr => by
+    simp only [List.map_cons, subsToks, itemChain, List.length_cons, List.cons_append, List.append_assoc]
+    have hi := parseExpression_mono (h p (by simp) (subsToks (more.map (·.2)) ++ rest)) ok_ne_fuel
+      (show f ≤ f + more.length + 1 by omega)
+    rw [show f + (more.length + 1) + 1 = (f + more.length + 1) + 1 by omega, parseSubs_one e hi]
+    exact parseSubs_chain f more _ rest (fun q hq => h q (by simp [hq])) hr
+
+/-- `u operand [i1][i2]…` -/
+theorem parseSimple_unary_chain (u : UnOp) {e : Expr} {to rest : List Token} {f0 : Nat} (idx : List (Expr × List Token))
+    (he : parseSimple f0 (to ++ (subsToks (idx.map (·.2)) ++ rest)) = .ok (e, subsToks (idx.map (·.2)) ++ rest))
+    (hidx : ∀ p ∈ idx, IndexOk f0 p.1 p.2) (hr : NoSubscript rest = true) :
+    ∀ f, f0 + idx.length + 2 ≤ f →
+      parseSimple f (unTok u :: (to ++ (subsToks (idx.map (·.2)) ++ rest))) =
+        .ok (.unary u (itemChain e (idx.map (·.1))), rest) := by
+  intro f hf
+  obtain ⟨g, rfl⟩ : ∃ g, f = g + 1 := ⟨f - 1, by omega⟩
+  rw [parseSimple_unary, parseSimple_mono he ok_ne_fuel (by omega)]
+  simp only [bind, Except.bind]
+  rw [parseSubs_mono (parseSubs_chain f0 idx e rest hidx hr) ok_ne_fuel (by omega)]
+  rfl
+
+/-- what `parseSimpleExpression` reads is the whole expression when the context ends it -/
+theorem parseExpression_of_simple {e : Expr} {ts rest : List Token} {f0 : Nat}
+    (h : parseSimple f0 ts = .ok (e, rest)) (hs : Stop rest = true) :
+    ∀ f, f0 + 4 ≤ f → parseExpression f ts = .ok (e, rest) := by
+  intro f hf
+  obtain ⟨g, rfl⟩ : ∃ g, f = g + 4 := ⟨f - 4, by omega⟩
+  have h1 : parseSimple (g+1) ts = .ok (e, rest) := parseSimple_mono h ok_ne_fuel (by omega)
+  have h2 : parseOperand (g+2) ts = .ok (e, rest) := by
+    rw [parseOperand, h1]; simp only [bind, Except.bind]; exact parseSuffix_none (stop_noSuffix hs) _ _
+  have h3 : parseBinaryPrec (g+3) 1 ts = .ok (e, rest) := by
+    rw [parseBinaryPrec_succ, h2]; simp only [bind, Except.bind]
+    exact parseLoop_stop (stop_hd hs 0) Nat.zero_lt_one _ _
+  rw [parseExpression, h3]
+  cases rest with
+  | nil => rfl
+  | cons t r => simp [bind, Except.bind, stop_isP hs, pure, Except.pure]
+
+/-- a result obtained with some fuel is the result with the model's fuel -/
+theorem parseExpression_exprFuel_of {ts : List Token} {f : Nat} {v : Expr × List Token}
+    (h : parseExpression f ts = .ok v) : parseExpression (exprFuel ts) ts = .ok v := by
+  have h1 : parseExpression (max f (exprFuel ts)) ts = .ok v := parseExpression_mono h ok_ne_fuel (Nat.le_max_left _ _)
+  rw [← parseExpression_fuel_irrelevant ts (Nat.le_max_right f (exprFuel ts)), h1]
 
 end Twig.PE
